@@ -1402,7 +1402,7 @@ func runC13(cfg Config, r *Result) {
 		return
 	}
 	defer model.Close()
-	r.Rule = "a case = a sequence of 1-8 built-in calls (every non-graphics built-in incl. del, plus hsl and clear's argument checks; argument values drawn from boundary classes: empty, non-ASCII (2/3/4-byte), identifier-like and non-identifier map keys, negative, fractional, halves, 2^31, 2^53, 2^63, huge, subnormal, ±Inf, NaN, ±0; formats over every verb/flag/width/precision form incl. malformed ones; histories of conversions for err/errmsg; histories of test outcomes with fail-fast/no-summary, ended by exit/panic; `test want got` on nearly equal composite values: one entry added / removed / renamed / changed / permuted in a map at any nesting depth (maps of maps, arrays of maps, maps of arrays, inside any), an element appended / dropped, in both argument orders, with the number of failed tests also decided by the statement's own sameness) rendered as a real evy program and run on the real evaluator and on the extracted model; compared: structural dump of every result (numbers by bit pattern), err/errmsg after every call, platform effects, class of Eval's result, test totals, the text of the failed-test errors (positions stripped; failing 3- and >=4-argument tests with '%' in the message in every position); plus every documented example of docs/builtins.md and docs/spec.md (exact output) and exit status/stdout/stderr (incl. the failed-test messages) of the real `evy run` binary; non-trivial = at least one call with arguments; distinct = distinct (flags, inputs, calls with argument values)"
+	r.Rule = "a case = a sequence of 1-8 built-in calls (every non-graphics built-in incl. del, plus hsl and clear's argument checks; argument values drawn from boundary classes: empty, non-ASCII (2/3/4-byte), identifier-like and non-identifier map keys, negative, fractional, halves, 2^31, 2^53, 2^63, huge, subnormal, ±Inf, NaN, ±0; formats over every verb/flag/width/precision form incl. malformed ones; histories of conversions for err/errmsg; histories of test outcomes with fail-fast/no-summary, ended by exit/panic; whole programs that themselves assign err / errmsg (either, both, in both orders, read-modify-write) interleaved with str2num / str2bool in every statement form (declaration, assignment, print argument, condition, user-function argument, two conversions in one expression, behind `err and` / `err or`, assigned to err / errmsg themselves) and with reads, at top level, in blocks and loops, in procedures, in the documented checked-conversion convention, in event handlers converting the payload - compared with the evaluator model and with the documented protocol executed by the generator; `test want got` on nearly equal composite values: one entry added / removed / renamed / changed / permuted in a map at any nesting depth (maps of maps, arrays of maps, maps of arrays, inside any), an element appended / dropped, in both argument orders, with the number of failed tests also decided by the statement's own sameness) rendered as a real evy program and run on the real evaluator and on the extracted model; compared: structural dump of every result (numbers by bit pattern), err/errmsg after every call, platform effects, class of Eval's result, test totals, the text of the failed-test errors (positions stripped; failing 3- and >=4-argument tests with '%' in the message in every position); plus every documented example of docs/builtins.md and docs/spec.md (exact output) and exit status/stdout/stderr (incl. the failed-test messages) of the real `evy run` binary; non-trivial = at least one call with arguments; distinct = distinct (flags, inputs, calls with argument values)"
 	if cfg.Replay != "" {
 		if c13Replay(cfg.Replay, model, r) {
 			return
@@ -1420,6 +1420,9 @@ func runC13(cfg Config, r *Result) {
 		for i := 0; i < cfg.N(120, 2500); i++ {
 			semCase(sem, r, c13DelInLoop(cfg.Rng), SemOpts{StopAt: -1, YieldBudget: 50000}, true, "del-in-loop:")
 		}
+		// err / errmsg written by the program itself (top level, blocks, procedures, the documented "checked conversion"
+		// convention, event handlers) interleaved with conversions in every statement form and with reads
+		c13ErrHistories(cfg.N(160, 4000), cfg.Rng, sem, r)
 		sem.Close()
 	}
 	// exhaustive small sweeps: every string function on all pairs of a small
